@@ -419,6 +419,9 @@ func runCheck(prop, tier string) int {
 	for k := range modelAss {
 		assumptions = append(assumptions, k)
 	}
+	if g.constGlobalUsed {
+		assumptions = append(assumptions, "package-level variables that the loaded program only initialises with a constant and never assigns or takes the address of (e.g. the ua.Status* codes, which are vars) are read as that constant")
+	}
 	for _, s := range g.contracts.Scan {
 		assumptions = append(assumptions, "assume found in contract file: "+s)
 	}
